@@ -16,13 +16,22 @@ fn interesting_char() -> impl Strategy<Value = char> {
         1 => prop_oneof![Just('\u{0301}'), Just('\u{200D}'), Just('\u{FE0F}')],
         2 => prop_oneof![Just('😀'), Just('𝄞'), Just('\u{10000}'), Just('\u{10FFFF}'), Just('\u{1F469}')],
         1 => prop_oneof![Just(';'), Just('#'), Just(']'), Just('['), Just('_'), Just('x'), Just('\\')],
+        // Latin-1 upper half incl. the C1 controls U+0080..U+009F (what an 8-bit compressed BIFF string
+        // must widen, not map through windows-1252)
+        1 => proptest::char::range('\u{80}', '\u{ff}'),
     ]
+}
+
+/// only characters below U+0100: such a string can be stored one byte per character
+fn latin1_char() -> impl Strategy<Value = char> {
+    prop_oneof![3 => proptest::char::range('a', 'z'), 1 => Just(' '), 2 => proptest::char::range('\u{80}', '\u{9f}'), 2 => proptest::char::range('\u{a0}', '\u{ff}')]
 }
 
 /// Unicode strings valid in XML 1.0 (no C0 controls except TAB/LF/CR, no U+FFFE/U+FFFF)
 pub fn xml_string(max_len: usize) -> impl Strategy<Value = String> {
     prop_oneof![
         8 => proptest::collection::vec(interesting_char(), 0..max_len.min(24)).prop_map(|v| v.into_iter().collect::<String>()),
+        1 => proptest::collection::vec(latin1_char(), 1..max_len.clamp(2, 16)).prop_map(|v| v.into_iter().collect::<String>()),
         1 => Just("  leading and trailing  ".to_string()),
         1 => Just("\u{FEFF}bom first".to_string()),
         1 => Just("a  b   c".to_string()),
